@@ -67,6 +67,12 @@
 //   exactly, >= 1 merges island and frame; -0.2 keeps, <= -0.5 makes unit features vanish), all joins, both
 //   union settings; frames of bars are touching/overlapping members, so d<0 without union is judged only for
 //   the key-holed frames.  Oracle unchanged.
+// Key-holed inputs (kinds K and N) are built by the harness itself (keyholed_plate / link_hole_by_hand): plate minus
+//   rectangular cut-outs as one vertex list with zero-width slits in the layout gdstk's hole linking produces.  No
+//   library call takes part in the setup of any case, so a defect in the hole handling shared by boolean() and
+//   offset() shows as an offset violation judged by the oracle, never as a broken check.
+// Results with holes: offset.single.ring, offset.nested, offset.pinch and offset.multi_hole (several outers with
+//   holes) run in the quick tier with all joins, both union settings, growing and shrinking.
 // Pinching holes: sub-check offset.pinch (see pinch_groups()) offsets plates by exactly half a neck width / half
 //   a hole gap (and by the neighbouring distances), all joins, both union settings, scalings 1000 and 2^20.
 // Union option: members of one partition family (same region, different polygons) are offset with
@@ -91,7 +97,7 @@ static bool VERBOSE = false;
 
 // ------------------------------------------------------------------------------------------ shapes
 struct Shape {
-    char kind = 'P';      // 'P' literal lattice polygon, 'K' key-holed ring = boolean(outer, inner, Not)
+    char kind = 'P';      // 'P' literal lattice polygon, 'K' key-holed ring, 'N' key-holed plate with several cut-outs (both hand-built slit polygons)
     eg::Poly pts;         // P: vertices; K: {outer min, outer max, inner min, inner max}
     std::string cls;      // rect / L / tri / ring / poly
     bool rev = false;     // hand the vertex list to gdstk in reversed order (opposite winding); spec kind in lower case
@@ -174,6 +180,97 @@ struct Group {
         gp.clear();
     }
 };
+// contour (counter-clockwise) with holes (clockwise loops) -> one key-holed vertex list: every hole, in order of its
+// lexicographically smallest vertex m, is connected by a horizontal zero-width slit from m to the nearest contour
+// edge on its left (contour = outer plus the holes linked so far):  ... prev, p_new, m, <hole>, m, p_new, next ...
+static bool link_hole_by_hand(eg::Poly& contour, eg::Poly hole) {
+    size_t im = 0;
+    for (size_t i = 1; i < hole.size(); i++) if (hole[i] < hole[im]) im = i;
+    std::rotate(hole.begin(), hole.begin() + im, hole.end());
+    eg::P m = hole[0];
+    size_t n = contour.size(), best = n;
+    long double bx = 0;
+    for (size_t i = 0; i < n; i++) {
+        eg::P pp = contour[(i + n - 1) % n], pn = contour[i];
+        if ((pn.y <= m.y && m.y < pp.y) || (pp.y < m.y && m.y <= pn.y)) {
+            long double x = pn.x + (long double)(pp.x - pn.x) * (m.y - pn.y) / (pp.y - pn.y);
+            if (x <= m.x && (best == n || x > bx)) { bx = x; best = i; }
+        }
+    }
+    if (best == n) return false;
+    int64_t xi = (int64_t)llroundl(bx);
+    if ((long double)xi != bx) return false;  // the slit must end on a lattice point
+    eg::P pnew = {xi, m.y};
+    eg::Poly ins = {pnew};
+    for (auto& v : hole) ins.push_back(v);
+    ins.push_back(m);
+    if (pnew != contour[best]) ins.push_back(pnew);
+    contour.insert(contour.begin() + best, ins.begin(), ins.end());
+    return true;
+}
+// plate (s.pts[0]..s.pts[1]) minus rectangular cut-outs (s.pts[2k]..s.pts[2k+1]) as a key-holed vertex list
+static eg::Poly keyholed_plate(const Shape& s, std::string& err) {
+    int64_t X0 = s.pts[0].x, Y0 = s.pts[0].y, X1 = s.pts[1].x, Y1 = s.pts[1].y;
+    int W = (int)(X1 - X0), H = (int)(Y1 - Y0);
+    std::vector<int> comp((size_t)W * H, -1);  // -1: plate material, -2: opening not yet labelled, >= 0: opening id
+    for (size_t c = 2; c + 1 < s.pts.size(); c += 2) {
+        if (s.pts[c].x <= X0 || s.pts[c].y <= Y0 || s.pts[c + 1].x >= X1 || s.pts[c + 1].y >= Y1) { err = "cut-out reaches the plate edge"; return {}; }
+        for (int64_t x = s.pts[c].x; x < s.pts[c + 1].x; x++)
+            for (int64_t y = s.pts[c].y; y < s.pts[c + 1].y; y++) comp[(size_t)(y - Y0) * W + (size_t)(x - X0)] = -2;
+    }
+    auto at = [&](int x, int y) { return (x < 0 || y < 0 || x >= W || y >= H) ? -1 : comp[(size_t)y * W + x]; };
+    int ncomp = 0;
+    for (int y = 0; y < H; y++)
+        for (int x = 0; x < W; x++) {
+            if (at(x, y) != -2) continue;
+            std::vector<std::pair<int, int>> st = {{x, y}};
+            comp[(size_t)y * W + x] = ncomp;
+            while (!st.empty()) {
+                auto c = st.back(); st.pop_back();
+                const int dx[] = {1, -1, 0, 0}, dy[] = {0, 0, 1, -1};
+                for (int k = 0; k < 4; k++) {
+                    int u = c.first + dx[k], v = c.second + dy[k];
+                    if (at(u, v) == -2) { comp[(size_t)v * W + u] = ncomp; st.push_back({u, v}); }
+                }
+            }
+            ncomp++;
+        }
+    std::vector<eg::Poly> holes;
+    for (int id = 0; id < ncomp; id++) {
+        // unit boundary edges with the opening on the left (counter-clockwise about the opening)
+        std::map<eg::P, eg::P> next;
+        size_t nedges = 0;
+        auto add = [&](int ax, int ay, int bx, int by) {
+            eg::P a = {X0 + ax, Y0 + ay}, b = {X0 + bx, Y0 + by};
+            if (next.count(a)) err = "opening pinches at a lattice point";
+            next[a] = b;
+            nedges++;
+        };
+        for (int y = 0; y < H; y++)
+            for (int x = 0; x < W; x++) {
+                if (at(x, y) != id) continue;
+                if (at(x, y - 1) != id) add(x, y, x + 1, y);
+                if (at(x + 1, y) != id) add(x + 1, y, x + 1, y + 1);
+                if (at(x, y + 1) != id) add(x + 1, y + 1, x, y + 1);
+                if (at(x - 1, y) != id) add(x, y + 1, x, y);
+            }
+        if (!err.empty()) return {};
+        eg::Poly loop;
+        eg::P start = next.begin()->first, cur = start;
+        do { loop.push_back(cur); cur = next[cur]; } while (cur != start && loop.size() <= nedges);
+        if (loop.size() != nedges) { err = "opening is not simply connected"; return {}; }
+        eg::Poly corners;  // drop collinear points
+        for (size_t i = 0; i < loop.size(); i++)
+            if (eg::cross(loop[(i + loop.size() - 1) % loop.size()], loop[i], loop[(i + 1) % loop.size()]) != 0) corners.push_back(loop[i]);
+        std::reverse(corners.begin(), corners.end());  // holes are clockwise
+        holes.push_back(corners);
+    }
+    std::sort(holes.begin(), holes.end(), [](const eg::Poly& a, const eg::Poly& b) { return *std::min_element(a.begin(), a.end()) < *std::min_element(b.begin(), b.end()); });
+    eg::Poly contour = {{X0, Y0}, {X1, Y0}, {X1, Y1}, {X0, Y1}};
+    for (auto& h : holes)
+        if (!link_hole_by_hand(contour, h)) { err = "no lattice link point for a hole"; return {}; }
+    return contour;
+}
 static Polygon* make_polygon(const eg::Poly& p) {
     Polygon* g = (Polygon*)allocate_clear(sizeof(Polygon));
     for (auto& v : p) g->point_array.append(Vec2{(double)v.x, (double)v.y});
@@ -191,35 +288,13 @@ static Group build_group(const std::vector<Shape>& shapes) {
             G.lat.push_back(p);
             G.gp.push_back(make_polygon(p));
         } else {
-            // key-holed ring produced by a prior boolean Not on the real code (scaling 1000)
-            Polygon* o = make_polygon({{s.pts[0].x, s.pts[0].y}, {s.pts[1].x, s.pts[0].y}, {s.pts[1].x, s.pts[1].y}, {s.pts[0].x, s.pts[1].y}});
-            // kind 'K': one rectangular cut-out; kind 'N' (plate): any number of rectangular cut-outs, which may
-            // overlap (L- and Z-shaped openings) or be separate (several slits)
-            Array<Polygon*> cuts = {};
-            for (size_t c = 2; c + 1 < s.pts.size(); c += 2)
-                cuts.append(make_polygon({{s.pts[c].x, s.pts[c].y}, {s.pts[c + 1].x, s.pts[c].y}, {s.pts[c + 1].x, s.pts[c + 1].y}, {s.pts[c].x, s.pts[c + 1].y}}));
-            Array<Polygon*> res = {};
-            ErrorCode ec = boolean(*o, cuts, Operation::Not, 1000, res);
-            o->clear(); free_allocation(o);
-            for (uint64_t c = 0; c < cuts.count; c++) { cuts[c]->clear(); free_allocation(cuts[c]); }
-            cuts.clear();
-            if (ec != ErrorCode::NoError || res.count != 1) {
-                R->internal_error("ring construction by boolean Not failed for " + spec_of(s));
-                G.ok = false;
-                for (uint64_t k = 0; k < res.count; k++) { res[k]->clear(); free_allocation(res[k]); }
-                res.clear();
-                continue;
-            }
-            eg::Poly lp;
-            for (uint64_t k = 0; k < res[0]->point_array.count; k++) {
-                int64_t x, y;
-                Vec2 v = res[0]->point_array[k];
-                if (!eg::to_grid(v.x, 1, x) || !eg::to_grid(v.y, 1, y)) { R->internal_error("ring vertex off the lattice: " + spec_of(s)); G.ok = false; }
-                lp.push_back({x, y});
-            }
-            // gdstk receives the boolean's own output polygon; the oracle uses its lattice vertices
-            // (to_grid checked that every coordinate is within 1e-6 of a lattice point)
-            // the key-holed vertex list must cover exactly outer minus inner (own winding, samples (i+1/3, j+1/7))
+            // key-holed polygon built BY HAND (no library call in the setup): plate minus its rectangular cut-outs
+            // as one vertex list with zero-width slits, in the layout gdstk's own hole linking produces.
+            // kind 'K': one cut-out; kind 'N' (plate): any number, overlapping (L/Z openings) or separate.
+            std::string err;
+            eg::Poly lp = keyholed_plate(s, err);
+            if (!err.empty()) { R->internal_error("harness bug: " + err + ": " + spec_of(s)); G.ok = false; continue; }
+            // own check: the vertex list covers exactly plate minus cut-outs (own winding, samples (i+1/3, j+1/7))
             {
                 eg::Poly l21;
                 for (auto& v : lp) l21.push_back({v.x * 21, v.y * 21});
@@ -230,19 +305,12 @@ static Group build_group(const std::vector<Shape>& shapes) {
                         bool in_i = false;
                         for (size_t c = 2; c + 1 < s.pts.size(); c += 2)
                             if (i >= s.pts[c].x && i < s.pts[c + 1].x && j >= s.pts[c].y && j < s.pts[c + 1].y) in_i = true;
-                        if ((eg::winding(l21, q) != 0) != (in_o && !in_i)) { R->internal_error("key-holed ring does not cover outer minus inner: " + spec_of(s)); G.ok = false; }
+                        if ((eg::winding(l21, q) != 0) != (in_o && !in_i)) { R->internal_error("harness bug: key-holed vertex list does not cover plate minus cut-outs: " + spec_of(s)); G.ok = false; }
                     }
             }
-            if (s.rev) {  // same key-holed vertex list, opposite winding
-                std::reverse(lp.begin(), lp.end());
-                Polygon* rp = (Polygon*)allocate_clear(sizeof(Polygon));
-                for (uint64_t k = res[0]->point_array.count; k-- > 0;) rp->point_array.append(res[0]->point_array[k]);
-                res[0]->clear(); free_allocation(res[0]);
-                res[0] = rp;
-            }
+            if (s.rev) std::reverse(lp.begin(), lp.end());
             G.lat.push_back(lp);
-            G.gp.push_back(res[0]);
-            res.clear();
+            G.gp.push_back(make_polygon(lp));
             if (s.kind == 'K') G.hole2.push_back({s.pts[2].x + s.pts[3].x, s.pts[2].y + s.pts[3].y});
         }
     }
@@ -758,7 +826,7 @@ static std::vector<std::vector<Shape>> nested_groups() {
     }
     return out;
 }
-// pinching holes: plates (slit polygons from boolean Not) whose opening has a neck of width w, so that growing
+// pinching holes: plates (hand-built slit polygons) whose opening has a neck of width w, so that growing
 // by exactly w/2 with miter joins closes the neck to a single point / to a segment on exact grid coordinates
 // (the result's hole contour then visits a point twice); and plates with two separate holes that touch at a
 // corner / along an edge when shrinking by exactly half their gap.  The distance set brackets the exact values
@@ -790,6 +858,40 @@ static std::vector<std::vector<Shape>> pinch_groups() {
         out.push_back({S[i]});
         if (i == 0 || i == 6) { Shape t = S[i]; t.rev = true; out.push_back({t}); }
     }
+    return out;
+}
+// results with several outer contours that carry holes (the hole linking must attach every hole to its own outer,
+// whatever vertex Clipper starts each contour at): two and three frames side by side / stacked / on a diagonal,
+// frames beside plain shapes on either side, frames of different size, as key-holed polygons and as 4 bars, in
+// both windings, and a diamond frame (slanted contour edges) given as two C-shaped halves.
+static std::vector<std::vector<Shape>> multi_hole_groups() {
+    auto bars = [](int x0, int y0, int x1, int y1) {
+        return std::vector<Shape>{rect(x0, y0, x1, y0 + 1), rect(x0, y1 - 1, x1, y1), rect(x0, y0 + 1, x0 + 1, y1 - 1), rect(x1 - 1, y0 + 1, x1, y1 - 1)};
+    };
+    auto K = [](int x0, int y0, int x1, int y1) { return ring(x0, y0, x1, y1, x0 + 1, y0 + 1, x1 - 1, y1 - 1); };
+    auto cat = [](std::vector<Shape> a, const std::vector<Shape>& b) { a.insert(a.end(), b.begin(), b.end()); return a; };
+    std::vector<std::vector<Shape>> out = {
+        {K(0, 0, 3, 3), K(4, 0, 7, 3)},                 // side by side, gap 1
+        {K(0, 0, 3, 3), K(5, 0, 8, 3)},                 // gap 2
+        {K(0, 0, 3, 3), K(0, 4, 3, 7)},                 // stacked
+        {K(0, 0, 3, 3), K(4, 4, 7, 7)},                 // diagonal
+        {K(0, 4, 3, 7), K(4, 0, 7, 3)},                 // anti-diagonal
+        {K(0, 0, 3, 3), K(4, 0, 7, 3), K(8, 0, 11, 3)}, // three in a row
+        {K(0, 0, 4, 4), K(5, 1, 8, 4)},                 // different sizes
+        {K(0, 0, 5, 3), K(0, 4, 3, 9)},                 // oblong frames
+        {rect(0, 0, 1, 3), K(2, 0, 5, 3)},              // plain shape on the left
+        {K(0, 0, 3, 3), rect(4, 0, 5, 3)},              // plain shape on the right
+        {rect(0, 4, 3, 5), K(0, 0, 3, 3)},              // plain shape above
+        {K(0, 0, 3, 3), tri({4, 0}, {6, 0}, {5, 3})},   // triangle beside a frame
+        cat(bars(0, 0, 3, 3), bars(4, 0, 7, 3)),        // frames of bars side by side
+        cat(bars(0, 0, 3, 3), bars(4, 4, 7, 7)),        // diagonal
+        cat(bars(0, 0, 4, 4), {K(5, 0, 8, 3)}),         // bars + key-holed
+        {poly({{3, 0}, {0, 3}, {3, 6}, {3, 4}, {2, 3}, {3, 2}}, "chalf"), poly({{3, 0}, {3, 2}, {4, 3}, {3, 4}, {3, 6}, {6, 3}}, "chalf")},   // diamond frame as two halves
+        {poly({{3, 0}, {0, 3}, {3, 6}, {3, 4}, {2, 3}, {3, 2}}, "chalf"), poly({{3, 0}, {3, 2}, {4, 3}, {3, 4}, {3, 6}, {6, 3}}, "chalf"), K(7, 1, 10, 4)},
+    };
+    size_t n0 = out.size();
+    for (size_t i = 0; i < n0; i++)
+        if (out[i].size() <= 3) { auto v = out[i]; for (auto& sh : v) sh.rev = true; out.push_back(v); auto w = out[i]; w.back().rev = true; out.push_back(w); }
     return out;
 }
 // partition families: every member of a family covers the same region
@@ -1002,7 +1104,7 @@ int main(int argc, char** argv) {
     int r1 = T ? 4 : 2;
     // single shapes, smallest first
     run_groups("offset.single.rect", T ? "all 225 lattice rectangles on {0..5}^2, both orientations" : "25 rectangles w,h in 1..5 (one per translation class), both orientations", singles("rect", T, true), r1);
-    run_groups("offset.single.ring", T ? "100 key-holed rings in both windings: outer" : "100 key-holed rings: outer [0,W]x[0,H], W,H in 3..5, every lattice hole with wall >= 1, built by boolean Not", singles("ring", false, T), r1);
+    run_groups("offset.single.ring", T ? "100 key-holed rings in both windings: outer" : "100 key-holed rings: outer [0,W]x[0,H], W,H in 3..5, every lattice hole with wall >= 1, hand-built key-holed polygons", singles("ring", false, T), r1);
     ARC_BUDGET = T ? 3e5 : 5e4;
     {
         auto X = extreme_scaling_groups(T);
@@ -1015,7 +1117,11 @@ int main(int argc, char** argv) {
     }
     {
         auto N = pinch_groups();
-        run_groups("offset.pinch", fmt("%zu plates with pinching openings (necks of width 1 and 2 between rectangular / L-shaped cut-outs; separate holes at diagonal or edge gap 1 and 2), built by boolean Not", N.size()), N, 2);
+        run_groups("offset.pinch", fmt("%zu plates with pinching openings (necks of width 1 and 2 between rectangular / L-shaped cut-outs; separate holes at diagonal or edge gap 1 and 2), hand-built key-holed polygons", N.size()), N, 2);
+    }
+    {
+        auto N = multi_hole_groups();
+        run_groups("offset.multi_hole", fmt("%zu groups whose result has several outer contours with holes (2-3 frames side by side / stacked / diagonal, frames beside plain shapes, key-holed and as bars, windings, diamond frame as two halves)", N.size()), N, 2, T ? std::vector<int>{0, 1} : std::vector<int>{0});
     }
     run_families(r1, T);
     run_groups("offset.single.L", T ? "all 1600 L shapes (every position), both orientations" : "144 L shapes (bounding box 2..4, every notch, 4 corners; one per translation class)", singles("L", T, T, T ? LAT : 4), r1);
